@@ -178,7 +178,7 @@ pub fn generate(prop: &str, rng: &mut Rng, plan: &mut Plan, _index: u64) {
         }
         plan.knobs.batch = "faulty".into();
     }
-    if prop != "C14" && rng.chance(1, 6) {
+    if rng.chance(1, 6) {
         // a signal handler of the application runs while the parent is blocked
         plan.knobs.faults.eintr = Some((1 + rng.below(12) as u32, 1 + rng.below(3) as u32, *rng.pick(&[1u8, 4, 7, 7])));
         plan.knobs.batch = "faulty".into();
